@@ -893,8 +893,8 @@ def judge(ctx, c, m, res, token, roots, router_info):
     # skip rules: the token of a member that must be skipped appears in no result
     # (a 7z entry listed without its own stream shifts the stream->name assignment: attribution by token is
     #  only meaningful when every stream-carrying entry has its own data)
-    # (likewise a multi-folder 7z: which bytes a member receives there is property C10's subject — a known defect
-    #  hands every folder the first pack stream — so content attribution is judged on single-folder archives)
+    # (multi-folder 7z archives are attributed too: the C10 pack-offset defect is repaired on HEAD, and a skipped
+    #  member's bytes surfacing under another member's name is exactly what must not happen)
     attributable = not any(x.get("lie") for x in m["members"])
     for mm in (m["members"] if attributable else []):
         nm = mm.get("eff", mm["name"])           # the name the container library reports (pax / unicode-path overrides)
@@ -954,7 +954,8 @@ def run(ctx):
         "oracles (universally quantified in the theorems; recorded in the correspondence): parsed 7z header, decoder output "
         "lengths, which makedirs/open calls fail, host file system, str.lower, mimetypes.guess_type, results per member",
         "modelled by hand, tied by differential runs: posixpath join/normpath/abspath/dirname/basename, _safe_join, "
-        "_build_file_list, extractall/_extract_files_from_folder, _process_7z_files_sequential, _should_skip_file, size rules, "
+        "_build_file_list, extractall/_extract_files_from_folder, _process_7z_files_sequential (incl. the size-on-disk guard; "
+        "os.path.getsize answers are a recorded oracle), _should_skip_file, size rules, "
         "generator life cycle of read_archive on 7z",
         "monitor: sys.addaudithook in a worker process (CPython raises the events), harness 7z writer, zipfile/tarfile writers",
         "CPython finalises a dropped generator promptly (refcount) — exercised, not proved",
@@ -977,7 +978,8 @@ def run(ctx):
         "C09_safe_join_confined", "C09_safe_join_below_plain", "C09_7z_events_confined", "C09_reads_subset_writes",
         "C09_reads_subset_writes_refuted_orig", "C09_skips", "C09_tempdir_balance", "C09_tempdir_gone",
         "C09_tempdir_gone_when_done", "C09_zip_tar_no_fs", "C09_7z_paths_from_safe_join",
-        "C09_ignored_props_inert", "C09_streamless_entries_inert", "C09_streamless_no_write_outside"])
+        "C09_ignored_props_inert", "C09_streamless_entries_inert", "C09_streamless_no_write_outside",
+        "C09_oversize_on_disk_never_read"])
     ctx.prove("C09/Inst.v", ["Gen/C09Tables.vo", "Gen/C09Skel.vo", "C09/Corr.vo", "C09/Proofs.vo"], expected=[
         "C09_limits_wf", "C09_routed_archive_exts_skipped", "C09_archive_registered", "C09_skel_zip_tar_no_fs",
         "C09_skel_zip_tar_reads_in_memory", "C09_skel_7z_paths_from_safe_join", "C09_skips_refuted_orig"])
@@ -1123,11 +1125,16 @@ def run(ctx):
                         evs.append(coq_ev("OpenW" if "w" in t[2] else "OpenR", t[3]))
                     elif t[0] == "probe":
                         evs.append(coq_ev("Probe", t[2]))
+                dsz = {}
+                for t in r["trace"]:
+                    if t[0] == "probe" and len(t) > 4:
+                        dsz.setdefault(t[2], t[4])
                 z7_cases.append("{| c_cwd := %s; c_base := %s; c_hdr := %s; c_dec := %s; c_bad_dirs := %s; c_bad_writes := %s; "
-                                "c_skipped := %s; c_max_mem := %d; c_events := %s |}" % (
+                                "c_skipped := %s; c_max_mem := %d; c_dsizes := %s; c_events := %s |}" % (
                                     coq_str(r["cwd"]), coq_str(base), coq_hdr(fl), dec_l, coq_list([coq_str(x) for x in bad_d]),
                                     coq_list([coq_str(x) for x in bad_w]), coq_list([coq_str(x) for x in skipped]),
-                                    r["max_mem"], coq_list(evs)))
+                                    r["max_mem"], coq_list([f"({coq_str(k)}, {coq_Z(v)})" for k, v in dsz.items()]),
+                                    coq_list(evs)))
                 z7_info.append((c["id"], m["label"], [(mm["cls"], mm["name"]) for mm in m["members"]]))
         # life-cycle programs: the pre-run (exhaust with counted entries) is the oracle for `yields`
         if c.get("count_entries"):
